@@ -461,7 +461,32 @@ pub fn c06(out: &mut dyn Write, tier: &str, rng: &mut Rng, st: &mut Stats) {
         while names.len() < k { let n = rng.pick(&NAME_POOL[..6]).to_string(); if !names.contains(&n) { names.push(n); } }
         let depth = 1 + rng.below(4) as u32;
         let x = names[0].clone();
-        let gf = {
+        let gf = if i % 4 == 1 && names.len() >= 2 {
+            // the bound name under a quantifier whose variable reaches the body only through
+            // the current iterate:  fix X # base(v, w) op (Q v # (X op' g))
+            let v = names[1].clone();
+            let w = names[names.len() - 1].clone();
+            let mut g = Gen { rng, names: names.clone(), allow_fix: false, big_consts: false, max_list: 2 };
+            let mut p = Pol::new();
+            p.insert(x.clone(), 1);
+            let mut pq = p.clone();
+            pq.remove(&v);
+            let side = if g.rng.chance(1, 2) { GF::Var(w.clone()) } else { g.gen(1, &pq) };
+            let inner_op = if g.rng.chance(1, 2) { 0 } else { 1 };
+            let inner = if g.rng.chance(1, 3) { GF::Var(x.clone()) } else { GF::Bin(inner_op, Box::new(GF::Var(x.clone())), Box::new(side)) };
+            let mut vs = vec![v.clone()];
+            if g.rng.chance(1, 3) { vs.insert(0, w.clone()); }
+            let q = GF::Quant(g.rng.chance(1, 2), vs, Box::new(inner));
+            let base = if g.rng.chance(1, 2) { GF::Var(v.clone()) } else { g.gen(1, &p) };
+            let other = GF::Var(w);
+            let body = match g.rng.below(3) {
+                0 => GF::Bin(1, Box::new(base), Box::new(GF::Bin(0, Box::new(q), Box::new(other)))),
+                1 => GF::Bin(0, Box::new(base), Box::new(GF::Bin(1, Box::new(q), Box::new(other)))),
+                _ => GF::Bin(g.rng.below(2) as u8, Box::new(q), Box::new(base)),
+            };
+            st.hit("template.quant-over-iterate");
+            GF::Fix(x, g.rng.chance(1, 2), Box::new(body))
+        } else {
             let mut g = Gen { rng, names, allow_fix: true, big_consts: false, max_list: 3 };
             let mut p = Pol::new();
             p.insert(x.clone(), 1);
